@@ -120,6 +120,18 @@ def run(tier, replay=None):
                         run_.diverge(where + " server-handle-missing", "the tool handler of %s has no server handle in its context" % r, rp)
                     if s["stage"] != "cf" and job["transport"] != "legacy" and not s["sender"]:
                         run_.diverge(where + " sender-missing", "stage %s of %s has no notification sender" % (s["stage"], r), rp)
+                # temporary sessions of stateless requests are private to their request
+                if job["transport"] == "stateless":
+                    ids = {}
+                    for s in res["seen"]:
+                        if s.get("sess_id"):
+                            ids.setdefault(s["sess_id"], set()).add(s["req"])
+                    for sid_, rs_ in ids.items():
+                        if len(rs_) > 1:
+                            run_.diverge(tag + " shared-temporary-session", "requests %s of different clients were given the same session %s" % (sorted(rs_), sid_), rp)
+                for s in res["seen"]:
+                    if s.get("scratch") and s["scratch"] != s["req"]:
+                        run_.diverge(tag + " session-data-bleed stage=%s" % s["stage"], "stage %s of %s found session data written by request %s" % (s["stage"], s["req"], s["scratch"]), rp)
                 stages_seen = {(s["req"], s["stage"]) for s in res["seen"]}
                 for i in range(1, job["nreq"] + 1):
                     for stg in ("cf", "mw", "fh"):
